@@ -186,6 +186,14 @@ var Av1 = &cu.Spec{
 	MarkerOnlyLast: true,
 	Stateful:       true,
 	MaxFrameBytes:  av1MaxTU,
+	FrameOfSize: func(n int) cu.Frame {
+		b := make([]byte, n)
+		for i := range b {
+			b[i] = byte(i*13 + 1)
+		}
+		copy(b, []byte{0x30})
+		return cu.Frame{b}
+	},
 	RetainBound:    2*av1MaxTU + 65536, // fragments (≤ max + first packet) and frame buffer (≤ max) are capped separately
 	PickMax:        av1PickMax,
 	Hostile:        av1Hostile,
